@@ -47,17 +47,19 @@ deriving DecidableEq, Repr
 def UdpSpecCase.stream (c : UdpSpecCase) : Bytes := (encodeAll c.tds).take c.cut ++ c.junk
 
 /-- The relay returned; the UDP side received exactly the datagrams that were complete before the
-cut, in order (with trailing junk after an uncut stream: at least those); the tunnel received
+cut, in order (with trailing junk after an uncut stream: at least those; a prefix of them if the UDP socket
+itself refused a Write); the tunnel received
 exactly the encoding of the datagrams the relay took from the UDP socket, and it took all of them
 when the tunnel neither ends by itself nor carries an illegal record. -/
 def holdsUdp (c : UdpSpecCase) (o : UdpObs) : Bool :=
   let ds := (dgramsOf c.uevs).take o.nread
   o.ret &&
   (!(c.tds.all wfDgram) ||
-    (if c.junk.isEmpty then o.udp == completeBefore c.tds c.cut
+    (if o.wfU then (!c.junk.isEmpty || o.udp.isPrefixOf (completeBefore c.tds c.cut))
+     else if c.junk.isEmpty then o.udp == completeBefore c.tds c.cut
      else (!(decide ((encodeAll c.tds).length ≤ c.cut)) || c.tds.isPrefixOf o.udp))) &&
   (!(ds.all wfDgram) || o.tun == encodeAll ds) &&
-  (!(c.ttail == .hold && c.junk.isEmpty && c.tds.all wfDgram) || o.nread == (dgramsOf c.uevs).length)
+  (!(c.ttail == .hold && c.junk.isEmpty && c.tds.all wfDgram && !o.wfU) || o.nread == (dgramsOf c.uevs).length)
 
 /-! ### SOCKS5 UDP tunnel codec -/
 
